@@ -45,7 +45,8 @@ type Scenario struct {
 	Ap        map[string]string `json:"ap"`
 	Nl        int               `json:"nl"`
 	Script    []string          `json:"script"`
-	Name      int               `json:"-"` // which resource name variant
+	PubFail   bool              `json:"pubfail"` // the connection refuses to publish resource events
+	Name      int               `json:"name"`    // which resource name variant
 }
 
 var apEvents = []string{"change", "add", "remove", "create", "delete"}
@@ -204,6 +205,14 @@ func execute(sc Scenario, rng *rand.Rand) (rec, error) {
 	}
 	s.Handle("probe", res.GetModel(func(r res.ModelRequest) { r.Model(map[string]int{"ok": 1}) }), res.Access(res.AccessGranted))
 	conn := rconn.New(nil)
+	if sc.PubFail {
+		conn.FailPub = func(subj string) error {
+			if strings.HasPrefix(subj, "event.") {
+				return errors.New("publish refused")
+			}
+			return nil
+		}
+	}
 	conn.OnPub = func(m rconn.Msg) {
 		if strings.HasPrefix(m.Subject, "event."+rn.rname+".") {
 			ev := strings.TrimPrefix(m.Subject, "event."+rn.rname+".")
@@ -557,6 +566,18 @@ func doStep(r *res.Request, st string) {
 		r.Timeout(-time.Second)
 	case "status":
 		r.SetResponseStatus(201)
+	case "status-redirect":
+		r.SetResponseStatus(302)
+	case "status-error":
+		r.SetResponseStatus(503)
+	case "header-location":
+		r.ResponseHeader().Set("Location", "/other")
+	case "ev-custom-bad":
+		r.Event("custom", make(chan int))
+	case "ev-change-bad":
+		r.ChangeEvent(map[string]interface{}{"a": make(chan int)})
+	case "ev-add-bad":
+		r.AddEvent(func() {}, 0)
 	case "header":
 		r.ResponseHeader().Set("X-A", `v"1`)
 	case "tokenevent":
@@ -612,7 +633,7 @@ var replySteps = map[string][]string{
 	"new":    {"new", "new-bad", "notfound", "methodnotfound", "invalidparams", "error-res"},
 	"call":   {"ok", "ok-nil", "ok-bad", "resource", "resource-bad", "notfound", "methodnotfound", "invalidparams", "invalidparams-msg", "invalidquery", "error-res", "error-plain"},
 }
-var otherSteps = []string{"timeout", "timeout-neg", "ev-custom", "ev-reserved", "ev-malformed", "ev-change", "ev-change-empty", "ev-add", "ev-add-neg", "ev-remove",
+var otherSteps = []string{"ev-custom-bad", "ev-change-bad", "ev-add-bad", "timeout", "timeout-neg", "ev-custom", "ev-reserved", "ev-malformed", "ev-change", "ev-change-empty", "ev-add", "ev-add-neg", "ev-remove",
 	"ev-remove-neg", "ev-create", "ev-delete", "ev-reaccess", "ev-reset", "panic-res", "panic-err", "panic-str", "panic-int", "panic-nilerr"}
 
 func alphabet(sc *Scenario) []string {
@@ -624,7 +645,7 @@ func alphabet(sc *Scenario) []string {
 	a := append([]string{}, rs...)
 	a = append(a, otherSteps...)
 	if k == "access" || k == "call" || k == "auth" {
-		a = append(a, "status", "header")
+		a = append(a, "status", "header", "status-redirect", "status-error", "header-location")
 	}
 	if k == "auth" && sc.Payload == "valid" {
 		// a token event goes to the requester's connection id, which only a real payload carries
@@ -679,6 +700,140 @@ func classify(m rec, clause string) string {
 		return clause + ":panic-with-nil-error"
 	}
 	return clause + ":other"
+}
+
+func crashClass(sc Scenario) string {
+	for _, st := range sc.Script {
+		if st == "panic-nilerr" {
+			return "panic-nilerr"
+		}
+	}
+	return "other"
+}
+
+// BatchMain executes the scenarios of a file, writing a begin marker and a record per scenario.
+func BatchMain(file, outFile string, seed int64) {
+	b, err := os.ReadFile(file)
+	if err != nil {
+		os.Exit(3)
+	}
+	var items []struct {
+		I  int      `json:"i"`
+		Sc Scenario `json:"sc"`
+	}
+	if json.Unmarshal(b, &items) != nil {
+		os.Exit(3)
+	}
+	out, err := os.OpenFile(outFile, os.O_CREATE|os.O_WRONLY|os.O_APPEND, 0o644)
+	if err != nil {
+		os.Exit(3)
+	}
+	defer out.Close()
+	rng := rand.New(rand.NewSource(seed))
+	for _, it := range items {
+		fmt.Fprintf(out, "{\"begin\":%d}\n", it.I)
+		r, err := execute(it.Sc, rng)
+		if err != nil {
+			r = rec{"error": err.Error()}
+		}
+		delete(r, "sc")
+		line, _ := json.Marshal(rec{"i": it.I, "r": r})
+		out.Write(append(line, '\n'))
+	}
+}
+
+func runBatches(scs []Scenario, seed int64, par int) (map[int]rec, map[int]string) {
+	results := map[int]rec{}
+	crashes := map[int]string{}
+	var mu sync.Mutex
+	tmp, _ := os.MkdirTemp("", "vreq-")
+	defer os.RemoveAll(tmp)
+	type item struct {
+		I  int      `json:"i"`
+		Sc Scenario `json:"sc"`
+	}
+	chunks := make([][]item, par)
+	for i, sc := range scs {
+		chunks[i%par] = append(chunks[i%par], item{i, sc})
+	}
+	var wg sync.WaitGroup
+	for ci := range chunks {
+		wg.Add(1)
+		go func(ci int) {
+			defer wg.Done()
+			rest := chunks[ci]
+			for attempt := 0; len(rest) > 0 && attempt < 200; attempt++ {
+				jf := filepath.Join(tmp, fmt.Sprintf("in-%d-%d.json", ci, attempt))
+				of := filepath.Join(tmp, fmt.Sprintf("out-%d-%d.ndjson", ci, attempt))
+				b, _ := json.Marshal(rest)
+				os.WriteFile(jf, b, 0o644)
+				cmd := exec.Command(filepath.Join(core.VerifDir, "bin", "engine"), "__reqbatch", jf, of, fmt.Sprint(seed+int64(ci)))
+				var errb bytes.Buffer
+				cmd.Stdout = &errb
+				cmd.Stderr = &errb
+				done := make(chan error, 1)
+				cmd.Start()
+				go func() { done <- cmd.Wait() }()
+				select {
+				case <-done:
+				case <-time.After(time.Duration(60+len(rest)/5) * time.Second):
+					cmd.Process.Kill()
+					<-done
+				}
+				ob, _ := os.ReadFile(of)
+				finished := map[int]bool{}
+				last := -1
+				for _, line := range bytes.Split(ob, []byte("\n")) {
+					var pr struct {
+						Begin *int `json:"begin"`
+						I     int  `json:"i"`
+						R     rec  `json:"r"`
+					}
+					if len(line) == 0 || json.Unmarshal(line, &pr) != nil {
+						continue
+					}
+					if pr.Begin != nil {
+						last = *pr.Begin
+						continue
+					}
+					if pr.R != nil {
+						mu.Lock()
+						results[pr.I] = pr.R
+						mu.Unlock()
+						finished[pr.I] = true
+					}
+				}
+				var next []item
+				progressed := false
+				for _, it := range rest {
+					if finished[it.I] {
+						progressed = true
+						continue
+					}
+					if it.I == last {
+						msg := ""
+						for _, l := range strings.Split(errb.String(), "\n") {
+							if strings.HasPrefix(l, "panic:") || strings.HasPrefix(l, "fatal error:") {
+								msg += l + " "
+							}
+						}
+						mu.Lock()
+						crashes[it.I] = msg
+						mu.Unlock()
+						progressed = true
+						continue
+					}
+					next = append(next, it)
+				}
+				if !progressed {
+					break
+				}
+				rest = next
+			}
+		}(ci)
+	}
+	wg.Wait()
+	return results, crashes
 }
 
 func lastStep(sc Scenario) string {
@@ -829,6 +984,7 @@ func Run(c *core.Ctx) {
 	for i := 0; i < c.Pick(1500, 30000); i++ {
 		k := kinds[rng.Intn(len(kinds))]
 		sc := base(k, rng.Intn(10) != 0, []string{"valid", "valid", "empty", "malformed"}[rng.Intn(4)], rng.Intn(2) == 0, rng.Intn(5) != 0, []string{"model", "collection", "unset"}[rng.Intn(3)], rng.Intn(4), rng.Intn(3), rng.Intn(5))
+		sc.PubFail = rng.Intn(8) == 0
 		al := alphabet(&sc)
 		n := rng.Intn(5)
 		for j := 0; j < n; j++ {
@@ -837,40 +993,27 @@ func Run(c *core.Ctx) {
 		scs = append(scs, sc)
 	}
 	var recs []interface{}
-	var risky []Scenario
-	for _, sc := range scs {
-		isRisky := false
-		for _, st := range sc.Script {
-			if st == "panic-nilerr" {
-				isRisky = true
-			}
-		}
-		if isRisky {
-			// may bring the whole process down: executed in a child process
-			risky = append(risky, sc)
-			continue
-		}
-		r, err := execute(sc, rng)
-		if err != nil {
+	results, crashes := runBatches(scs, c.Seed, 8)
+	for i, sc := range scs {
+		if msg, ok := crashes[i]; ok {
 			if c.Property == "C04" {
-				c.Violate(core.Violation{Signature: map[string]string{"engine": "reqsim", "kind": "C04:not-processed"}, Text: err.Error(), Replay: sc})
+				c.Violate(core.Violation{Signature: map[string]string{"engine": "reqsim", "kind": "C04:process-crash:" + crashClass(sc)},
+					Text: "a handler's panic took the whole service process down: " + msg, Replay: sc})
 			}
 			continue
 		}
+		r, ok := results[i]
+		if !ok {
+			continue
+		}
+		if e, isErr := r["error"]; isErr {
+			if c.Property == "C04" {
+				c.Violate(core.Violation{Signature: map[string]string{"engine": "reqsim", "kind": "C04:not-processed"}, Text: fmt.Sprint(e), Replay: sc})
+			}
+			continue
+		}
+		r["sc"] = sc
 		recs = append(recs, r)
-	}
-	for _, sc := range risky {
-		r, crash := executeInChild(sc, c.Seed)
-		if crash != "" {
-			if c.Property == "C04" {
-				c.Violate(core.Violation{Signature: map[string]string{"engine": "reqsim", "kind": "C04:process-crash:" + lastStep(sc)},
-					Text: "the handler's panic took the whole service process down: " + crash, Replay: sc})
-			}
-			continue
-		}
-		if r != nil {
-			recs = append(recs, r)
-		}
 	}
 	var bad []int
 	core.CheckRecords(c, "TraceRequest", "TraceRequest.cfg", recs, nil, func(i int, r interface{}, inv string) { bad = append(bad, i) })
